@@ -192,6 +192,13 @@ for fmt, what, firsts in (("csv", "the RFC 4180 quoting (surrounding quotes, dou
         ob(f"O-C13-{fmt}-reader-{f}", ["C13", "C14", "C05"], F, f"c13_{fmt}_reader_{f}", f"the real {fmt.upper()} field reader inverts {what}: for every field content of length <= 2 over the format's metacharacters and a letter (first character: {f}), ended by end of input, the separator or a newline, it returns exactly that content, stops at the terminator and consumes nothing else", [FM + f"read/tabular.rs::{fmt}_field", FM + "read/tabular.rs::field"], label="bounded", bound="field contents of length <= 2 over the metacharacter alphabet, three terminators; enumerated concretely", timeout=900)
 ob("O-C14-csv-rows-quoted", ["C14"], F, "c14_csv_rows_quoted_empty", "the real CSV row reader (read_csv / row / Field::is_empty / From<Field>) on the text `\"\"` - exactly what `[\"\"] | tocsv` writes - yields one row holding one empty string, not the end of input", [FM + "read/tabular.rs::row", FM + "read/tabular.rs::Field::is_empty", FM + "read/tabular.rs::read_csv"], label="point", kind="point")
 ob("O-C14-csv-rows-basic", ["C14"], F, "c14_csv_rows_basic", "the real CSV row reader on four texts made of empty and quoted-empty cells: empty text -> no row; a newline -> [null]; a comma -> [null, null]; two rows of quoted-empty / empty cells come back cell for cell (null vs the empty string kept apart)", [FM + "read/tabular.rs::row", FM + "read/tabular.rs::Field::is_empty", FM + "read/tabular.rs::read_csv"], label="point", kind="point")
+YQ = "needs_quote(s) ==> must_quote(s), where needs_quote is written from the YAML 1.2.2 core schema (strings a reader resolves to null / bool / int / float), the document markers and the rule that leading / trailing blanks are not part of a plain scalar, and must_quote is the real function deciding whether the YAML writer emits a text string plain - "
+for k, what in (("core", "ten usual spellings (1, -1, 1e3, 0x1F, ~, null, True, ---, .nan, .inf)"),
+                ("num", "numbers with an explicit plus sign or without an integer part (+1, .5, -.5, +.5e1)"),
+                ("inf", "signed infinities (-.inf, +.inf, -.INF)"),
+                ("blank", "leading and trailing blanks (` a`, `a `, a<TAB>, `a b `)"),
+                ("spec-sanity", "vacuity guard: needs_quote rejects ordinary words and near-numbers (a b, +, ., +a, 1a, e1, 0x) and accepts 1., 1.5E-3, 0o17")):
+    ob(f"O-C14-yaml-quote-{k}", ["C14"], F, "c14_yaml_quote_" + k.replace("-", "_"), (YQ + what) if k != "spec-sanity" else what, [FM + "write/yaml.rs::must_quote", FM + "write/yaml.rs::ns_plain_one_line"], label="point", kind="point")
 
 CFG = {
     "trusted_base": [
